@@ -7,6 +7,7 @@ ROOT = os.path.dirname(os.path.dirname(os.path.abspath(__file__)))
 WT = "/tmp/hwt"
 def sh(c, **k): return subprocess.run(c, shell=True, stdout=subprocess.PIPE, stderr=subprocess.STDOUT, text=True, **k)
 sh("git -C /repo worktree remove --force %s; rm -rf %s; git -C /repo worktree prune; git -C /repo worktree add -q --detach %s HEAD" % (WT, WT, WT))
+sh("cp /repo/Cargo.lock %s/" % WT)      # untracked in /repo, but part of what the obligations read
 sys.path.insert(0, os.path.join(ROOT, "translator"))
 os.environ["VERIF_REPO"] = WT
 import bodies
